@@ -395,6 +395,18 @@ fn protect_produced_text(token: &mut types::Token) {
 /// Same, for a token of which only parts were produced: `produced_gt` tells
 /// whether one of the inserted values contains a `>` (a `>` the user typed,
 /// as in `echo $A>file`, still is a redirection).
+/// The number of leading `NAME=value` words of a command: they are its
+/// assignments (types.rs::drain_env_tokens), whatever an expansion puts into
+/// their value - they are not protected like argument words.
+fn leading_assignment_words(tokens: &types::Tokens) -> usize {
+    tokens
+        .iter()
+        .take_while(|(sep, text)| {
+            sep.is_empty() && libs::re::re_contains(text, r"(?s)^([a-zA-Z0-9_]+)=(.*)$")
+        })
+        .count()
+}
+
 fn protect_partly_produced_text(token: &mut types::Token, produced_gt: bool) {
     if !token.0.is_empty() {
         return;
@@ -843,6 +855,7 @@ fn env_in_token(token: &str) -> bool {
 pub fn expand_env(sh: &Shell, tokens: &mut types::Tokens) {
     let mut idx: usize = 0;
     let mut buff = Vec::new();
+    let n_assign = leading_assignment_words(tokens);
 
     for (sep, token) in tokens.iter() {
         if sep == "`" || sep == "'" {
@@ -890,7 +903,9 @@ pub fn expand_env(sh: &Shell, tokens: &mut types::Tokens) {
 
     for (i, text, produced_gt) in buff.iter().rev() {
         tokens[*i].1 = text.to_string();
-        protect_partly_produced_text(&mut tokens[*i], *produced_gt);
+        if *i >= n_assign {
+            protect_partly_produced_text(&mut tokens[*i], *produced_gt);
+        }
     }
 }
 
@@ -974,6 +989,7 @@ fn run_for_substitution(sh: &mut Shell, cmd: &str) -> String {
 fn do_command_substitution_for_dollar(sh: &mut Shell, tokens: &mut types::Tokens) {
     let mut idx: usize = 0;
     let mut buff: HashMap<usize, (String, bool)> = HashMap::new();
+    let n_assign = leading_assignment_words(tokens);
 
     for (sep, token) in tokens.iter() {
         if sep == "'" || sep == "\\" || !should_do_dollar_command_extension(token) {
@@ -1004,13 +1020,16 @@ fn do_command_substitution_for_dollar(sh: &mut Shell, tokens: &mut types::Tokens
 
     for (i, (text, produced_gt)) in buff.iter() {
         tokens[*i].1 = text.to_string();
-        protect_partly_produced_text(&mut tokens[*i], *produced_gt);
+        if *i >= n_assign {
+            protect_partly_produced_text(&mut tokens[*i], *produced_gt);
+        }
     }
 }
 
 fn do_command_substitution_for_dot(sh: &mut Shell, tokens: &mut types::Tokens) {
     let mut idx: usize = 0;
     let mut buff: HashMap<usize, String> = HashMap::new();
+    let n_assign = leading_assignment_words(tokens);
     for (sep, token) in tokens.iter() {
         let new_token: String;
         if sep == "`" {
@@ -1062,7 +1081,9 @@ fn do_command_substitution_for_dot(sh: &mut Shell, tokens: &mut types::Tokens) {
 
     for (i, text) in buff.iter() {
         tokens[*i].1 = text.to_string();
-        protect_produced_text(&mut tokens[*i]);
+        if *i >= n_assign {
+            protect_produced_text(&mut tokens[*i]);
+        }
     }
 }
 
